@@ -63,6 +63,10 @@ func longLine(t *rapid.T) int {
 func genLoadCase(t *rapid.T) loadCase {
 	var c loadCase
 	c.Cfg = gen.AsmCfg(rapid.IntRange(0, 2).Draw(t, "dialect") == 0).Draw(t, "cfg")
+	if gen.Rare(t, "hugecore", 3) {
+		// cores of more than 2^31 cells: fields that need more than 32 bits
+		c.Cfg.CoreSize = rapid.SampledFrom([]int64{1<<31 + 1000, 1 << 32, 1<<33 + 7, 1 << 40}).Draw(t, "Mhuge")
+	}
 	maxLen := 20
 	if gen.Rare(t, "long", 5) {
 		maxLen = 400
@@ -97,11 +101,18 @@ func judgeLoadCase(c loadCase, rec *hx.Rec) string {
 	if pm != "" {
 		return fmt.Sprintf("CompileWarrior panicked: %s\ntext:\n%q", pm, text)
 	}
-	if err != nil {
+	loaderOnly := false
+	if err != nil && c.Cfg.CoreSize > 1<<31 && strings.Contains(err.Error(), "out of range") {
+		// the assembler reads literals as 32-bit numbers (C07); in a core of more than 2^31 cells a
+		// field may be printed as a larger one. That half of the round trip has no domain there.
+		loaderOnly = true
+	} else if err != nil {
 		return fmt.Sprintf("CompileWarrior rejected a canonical load file (legacy=%v M=%d): %v\ntext:\n%q", c.Cfg.Legacy, m, err, text)
 	}
-	if d := diffMeaning(wd, want, false); d != "" {
-		return fmt.Sprintf("CompileWarrior (legacy=%v M=%d): %s\ntext:\n%q", c.Cfg.Legacy, m, d, text)
+	if !loaderOnly {
+		if d := diffMeaning(wd, want, false); d != "" {
+			return fmt.Sprintf("CompileWarrior (legacy=%v M=%d): %s\ntext:\n%q", c.Cfg.Legacy, m, d, text)
+		}
 	}
 	if rec != nil {
 		st := c.Style
@@ -112,6 +123,8 @@ func judgeLoadCase(c loadCase, rec *hx.Rec) string {
 			}
 		}
 		add(c.Cfg.Legacy, "icws88")
+		add(c.Cfg.CoreSize > 1<<31, "core_above_2^31")
+		add(loaderOnly, "loader_only_(literal_beyond_32_bits)")
 		add(st.CRLF, "crlf")
 		add(st.NoFinalNL, "no_final_newline/last_line_"+rc.LastLineKind(c.Cfg.Legacy, st))
 		add(st.Signed, "signed_fields")
@@ -125,7 +138,7 @@ func judgeLoadCase(c loadCase, rec *hx.Rec) string {
 	return ""
 }
 
-const c09Rule = "rapid draws a warrior (length 1..20, one in thirty up to 400; every form legal in the dialect; fields across [0,M) incl. M/2, M/2+1, M-1; every entry point), a core size and a layout: our printer writes the canonical load file ('94: ORG n + OP.MOD lines [+ END]; '88: OP lines + END n) with fields printed as f or f-M and any subset of {case, extra blanks/tabs, CR-LF, blank lines, comment lines and end-of-line comments, metadata comments at the top and between any two lines, trailing comment line, final newline dropped}; ParseLoadFile and CompileWarrior of that text must both reproduce code and entry point. Non-trivial: >= 2 instructions, non-zero entry or signed spelling, and at least one perturbation; distinct by case hash."
+const c09Rule = "rapid draws a warrior (length 1..20, one in thirty up to 400; every form legal in the dialect; fields across [0,M) incl. M/2, M/2+1, M-1; every entry point), a core size (one in eight above 2^31 cells) and a layout: our printer writes the canonical load file ('94: ORG n + OP.MOD lines [+ END]; '88: OP lines + END n) with fields printed as f or f-M and any subset of {case, extra blanks/tabs, CR-LF, blank lines, comment lines and end-of-line comments, metadata comments at the top and between any two lines, trailing comment line, final newline dropped}; ParseLoadFile and CompileWarrior of that text must both reproduce code and entry point. Non-trivial: >= 2 instructions, non-zero entry or signed spelling, and at least one perturbation; distinct by case hash."
 
 func TestC09(t *testing.T) {
 	hx.Run(t, hx.Prop[loadCase]{
